@@ -14,7 +14,7 @@ extern "C" void h_file_seq(void)
 {
 	int n = vp_param(0), ak = vp_param(1), alen = vp_param(2);
 	int e = vp_concretize(vp_range(0, 2));
-	int kind[4]; u64 val[4]; byte ref[64]; int rl = 0;
+	int kind[4]; u64 val[4]; byte ref[128]; int rl = 0;
 	{
 		File f("s.bin", File::WRITE); f.setEndian(endian_of(e));
 		for (int i = 0; i < n; i++) {
@@ -23,8 +23,12 @@ extern "C" void h_file_seq(void)
 				case 4: f << (unsigned)v; break; case 5: f << (Long)v; break; case 6: f << frombits<float>(v); break; case 7: f << frombits<double>(v); break; }
 			rl += ref_put(ref + rl, v, sz, e == 0);
 		}
-		if (ak == 1) { Array<short> a(alen); for (int i = 0; i < alen; i++) { u64 v = nondet_u16(); a[i] = (short)v; rl += ref_put(ref + rl, v, 2, e == 0); } f << a; }
-		if (ak == 3) { Array<int> a(alen); for (int i = 0; i < alen; i++) { u64 v = nondet_u32(); a[i] = (int)v; rl += ref_put(ref + rl, v, 4, e == 0); } f << a; }
+		if (ak == 1) { Array<short> a(alen); for (int i = 0; i < alen; i++) { u64 v = nondet_u16(); a[i] = (short)v; rl += ref_put(ref + rl, v, 2, e == 0); }
+			Array<short> keep = a.clone(); f << a; vp_assert(a == keep, "writing an array leaves the caller's array unchanged");
+			f << a; for (int i = 0; i < alen; i++) rl += ref_put(ref + rl, (unsigned short)keep[i], 2, e == 0); }      // the same array written a second time
+		if (ak == 3) { Array<int> a(alen); for (int i = 0; i < alen; i++) { u64 v = nondet_u32(); a[i] = (int)v; rl += ref_put(ref + rl, v, 4, e == 0); }
+			Array<int> keep = a.clone(); f << a; vp_assert(a == keep, "writing an array leaves the caller's array unchanged");
+			f << a; for (int i = 0; i < alen; i++) rl += ref_put(ref + rl, (unsigned)keep[i], 4, e == 0); }
 	}
 	File g("s.bin");
 	ByteArray c = g.content();
